@@ -164,7 +164,7 @@ def run_text(ctx, maxlen, head):
 
 
 def cubes_text(tier, seed):
-    L = 4 if tier == 'quick' else 6
+    L = 4 if tier == 'quick' else 5
     out = []
     for n in range(1, L + 1):
         if n >= 4:
@@ -327,7 +327,8 @@ def cubes_lists(tier, seed):
 
 HARNESSES = {
     'tokens': {'fn': run_tokens, 'cubes': cubes_tokens},
-    'text': {'fn': run_text, 'cubes': cubes_text},
+    'text': {'fn': run_text, 'cubes': cubes_text,
+             'concretize_limit': 5000000},
     'values': {'fn': run_values, 'cubes': cubes_values},
     'lists': {'fn': run_lists, 'cubes': cubes_lists},
 }
@@ -352,7 +353,7 @@ def evidence(tier):
                       'that the reference grammar rejects' % (
                           5 if tier == 'quick' else 7),
             'text': 'every string of 1..%d characters over %r' % (
-                4 if tier == 'quick' else 6, TEXT_ALPHABET),
+                4 if tier == 'quick' else 5, TEXT_ALPHABET),
             'values': '%d non-rule values + 3 always-allow spellings x '
                       '{from_dict, JSON text, YAML text} x all subsets of '
                       '%s' % (len(VALUES), ROLES),
